@@ -127,13 +127,13 @@ def shards(tier):
     n = 16
     return [{"kind": "hyp", "n": 1500 if tier == "quick" else 40000} for _ in range(n - 4)] + \
            [{"kind": "perm", "k": 5 if tier == "quick" else 6, "part": p} for p in range(2)] + \
-           [{"kind": "serializer", "n": 1500 if tier == "quick" else 30000} for _ in range(2)]
+           [{"kind": "serializer", "n": 1500 if tier == "quick" else 30000} for _ in range(2)] + [{"kind": "long"}]
 
 
 # --- serializer level: HTMLSerializer(alphabetical_attributes=True) in combination with the other filters it installs -----------------
 S_TAGS = ["p", "div", "span", "a", "img", "input", "meta", "td", "b", "link", "body", "html"]
-S_ATTRS = ["id", "class", "title", "href", "lang", "content", "http-equiv", "charset", "name", "a", "b", "aa", "data-x", "zz", "type", "B", "_", "src", "rel"]
-S_VALS = ["1", "content-type", "Content-Type", "text/html; charset=x", "x y", "", "utf-8", "v"]
+S_ATTRS = ["id", "class", "title", "style", "href", "lang", "width", "xml:lang", "content", "http-equiv", "charset", "name", "a", "b", "aa", "data-x", "zz", "type", "B", "_", "src", "rel"]
+S_VALS = ["color: red", "1", "content-type", "Content-Type", "text/html; charset=x", "x y", "", "utf-8", "v"]
 S_OPTS = ["quote_attr_values", "omit_optional_tags", "minimize_boolean_attributes", "use_trailing_solidus", "strip_whitespace", "inject_meta_charset", "escape_lt_in_attrs", "sanitize"]
 
 
@@ -194,6 +194,19 @@ def check_serializer_case(case):
 
 def run_shard(desc, seed, tier):
     acc = Acc()
+    if desc["kind"] == "long":
+        # long streams: nothing about the filter depends on how many tokens came before (block-wise buffering, caches)
+        for n in (1022, 1023, 1024, 1025, 1026, 2047, 2049, 2050, 3075, 5000):
+            toks = []
+            i = 0
+            while len(toks) < n:
+                i += 1
+                toks.append({"type": "StartTag", "name": "a", "namespace": None, "attrs": [[None, "z%d" % i, "1"], ["b", "a", str(i)], [None, "a", "2"]]})
+                toks.append({"type": "Characters", "data": "t%d" % i})
+                toks.append({"type": "EndTag", "name": "a", "namespace": None})
+            case = {"tokens": toks[:n]}
+            acc.add(case, check_case(case))
+        return acc
     if desc["kind"] == "serializer":
         from vf.gen.soup import sized_binary
 
